@@ -168,7 +168,67 @@ Definition str_of_value (v : out) : string := match v with OT "str" [OS s] => s 
 (* result tree of parse_config_file *)
 Inductive itree := INode (filename : string) (imports : list string) (includes : list itree).
 
-(* parse_config on a token list (statement by statement), mutually with parse_config_file *)
+(* references are created (and may fail) while the statement — for a block: the whole block — is being
+   parsed, i.e. before any of its members is applied: resolve every value of the yielded group first *)
+Fixpoint resolve_group (s : tstate) (sk : skip_unknown) (fname : string) (stmts : list stmt) : sres (list stmt) :=
+  match stmts with
+  | [] => SOk []
+  | SBind sc sel arg v line :: rest =>
+      match resolve_value 100 s sk v with
+      | SErr e => with_loc (fname, line) (SErr e)
+      | SOk v' => match resolve_group s sk fname rest with
+                  | SErr e => SErr e
+                  | SOk r' => SOk (SBind sc sel arg v' line :: r')
+                  end
+      end
+  | st :: rest => match resolve_group s sk fname rest with SErr e => SErr e | SOk r' => SOk (st :: r') end
+  end.
+
+(* what an include statement does: given the file name, the line and the state *)
+Definition inc_handler := string -> tstate -> tstate * sres itree.
+
+(* the statement consumer (2371-2398) on the statements one parse step yielded *)
+Fixpoint apply_stmts (env : fenv) (sk : skip_unknown) (fname : string) (inc : inc_handler)
+         (stmts : list stmt) (s : tstate) (imports : list string) (incl : list itree)
+  : tstate * sres (list string * list itree) :=
+  match stmts with
+  | [] => (s, SOk (imports, incl))
+  | st :: rest =>
+      match st with
+      | SBind sc sel arg v line =>
+          let l := (fname, line) in
+          if String.eqb arg "" then
+            match bind s (if String.eqb sc "" then sel else sc ++ "/" ++ sel) "gin.macro" "value" v l with
+            | SErr e => (s, with_loc l (SErr e))
+            | SOk s' => apply_stmts env sk fname inc rest s' imports incl
+            end
+          else if should_skip s sel sk then apply_stmts env sk fname inc rest s imports incl
+          else match bind s sc sel arg v l with
+               | SErr e => (s, with_loc l (SErr e))
+               | SOk s' => apply_stmts env sk fname inc rest s' imports incl
+               end
+      | SBlock sc sel line =>
+          if should_skip s sel sk then apply_stmts env sk fname inc rest s imports incl else
+          match sm_get_match (to_key sel) (t_reg s) with
+          | MOne _ (Some _) => apply_stmts env sk fname inc rest s imports incl
+          | MAmbiguous => (s, with_loc (fname, line) (SErr (SEOther "KeyError" [])))
+          | _ => (s, with_loc (fname, line) (SErr (SEOther "ValueError" [])))
+          end
+      | SImport m is_from alias line =>
+          if str_in m (e_modules env) then apply_stmts env sk fname inc rest s (imports ++ [m]) incl
+          else if sk_truthy sk then apply_stmts env sk fname inc rest s imports incl
+          else (s, with_loc (fname, line) (SErr (SEOther "ModuleNotFoundError" [])))
+      | SInclude v line =>
+          let '(s', r) := inc (str_of_value v) s in
+          match r with
+          | SErr e => (s', with_loc (fname, line) (SErr e))
+          | SOk t => apply_stmts env sk fname inc rest s' imports (incl ++ [t])
+          end
+      end
+  end.
+
+(* parse_config on a token list: each statement (group) is applied before the next is tokenised;
+   include statements parse the named file immediately (parse_config_file, 2492-2505) *)
 Fixpoint parse_tokens (fuel : nat) (env : fenv) (sk : skip_unknown) (fname : string)
          (o : oracle) (pending : bool) (ts : list token) (s : tstate) (imports : list string) (incl : list itree)
          {struct fuel} : tstate * sres (list string * list itree) :=
@@ -180,79 +240,29 @@ Fixpoint parse_tokens (fuel : nat) (env : fenv) (sk : skip_unknown) (fname : str
       | PErr (EOther c) => (s, SErr (SEOther c []))
       | POk None => (add_imports imports s, SOk (imports, incl))
       | POk (Some (stmts, ts', pending')) =>
-          (* references are created (and may fail) while the statement — for a block: the whole block —
-             is being parsed, i.e. before any of its members is applied *)
-          let resolved :=
-            (fix res (stmts : list stmt) : sres (list stmt) :=
-               match stmts with
-               | [] => SOk []
-               | SBind sc sel arg v line :: rest =>
-                   match resolve_value 100 s sk v with
-                   | SErr e => with_loc (fname, line) (SErr e)
-                   | SOk v' => match res rest with SErr e => SErr e | SOk r' => SOk (SBind sc sel arg v' line :: r') end
-                   end
-               | st :: rest => match res rest with SErr e => SErr e | SOk r' => SOk (st :: r') end
-               end) stmts in
-          match resolved with
+          match resolve_group s sk fname stmts with
           | SErr e => (s, SErr e)
-          | SOk stmts =>
-          (* apply the statements this parse step yielded (a block yields its declaration and members) *)
-          let '(s1, r) :=
-            (fix app (stmts : list stmt) (s : tstate) (imports : list string) (incl : list itree)
-               : tstate * sres (list string * list itree) :=
-               match stmts with
-               | [] => (s, SOk (imports, incl))
-               | st :: rest =>
-                   match st with
-                   | SBind sc sel arg v line =>
-                       let l := (fname, line) in
-                       match SOk v with
-                       | SErr e => (s, SErr e)
-                       | SOk v' =>
-                           if String.eqb arg "" then
-                             match bind s (if String.eqb sc "" then sel else sc ++ "/" ++ sel) "gin.macro" "value" v' l with
-                             | SErr e => (s, with_loc l (SErr e))
-                             | SOk s' => app rest s' imports incl
-                             end
-                           else if should_skip s sel sk then app rest s imports incl
-                           else match bind s sc sel arg v' l with
-                                | SErr e => (s, with_loc l (SErr e))
-                                | SOk s' => app rest s' imports incl
-                                end
-                       end
-                   | SBlock sc sel line =>
-                       if should_skip s sel sk then app rest s imports incl else
-                       match sm_get_match (to_key sel) (t_reg s) with
-                       | MOne _ (Some _) => app rest s imports incl
-                       | MAmbiguous => (s, with_loc (fname, line) (SErr (SEOther "KeyError" [])))
-                       | _ => (s, with_loc (fname, line) (SErr (SEOther "ValueError" [])))
-                       end
-                   | SImport m is_from alias line =>
-                       if str_in m (e_modules env) then app rest s (imports ++ [m]) incl
-                       else if sk_truthy sk then app rest s imports incl
-                       else (s, with_loc (fname, line) (SErr (SEOther "ModuleNotFoundError" [])))
-                   | SInclude v line =>
-                       let name := str_of_value v in
-                       match resolve_file env name with
-                       | None => (s, with_loc (fname, line) (SErr (SEOther "OSError" [])))
-                       | Some (full, g) =>
-                           let '(s', r) :=
-                             match settle (f_tokens g) with
-                             | PErr (ESyntax ln) => (s, SErr (SESyntax full ln))
-                             | PErr (EOther c) => (s, SErr (SEOther c []))
-                             | POk ts0 => parse_tokens f env sk full (f_oracle g) false ts0 s [] []
-                             end in
-                           match r with
-                           | SErr e => (s', with_loc (fname, line) (SErr e))
-                           | SOk (im, inc) => app rest s' imports (incl ++ [INode name im inc])
-                           end
-                       end
-                   end
-               end) stmts s imports incl in
-          match r with
-          | SErr e => (s1, SErr e)
-          | SOk (imports', incl') => parse_tokens f env sk fname o pending' ts' s1 imports' incl'
-          end
+          | SOk stmts' =>
+              let inc : inc_handler := fun name s =>
+                match resolve_file env name with
+                | None => (s, SErr (SEOther "OSError" []))
+                | Some (full, g) =>
+                    let '(s', r) :=
+                      match settle (f_tokens g) with
+                      | PErr (ESyntax ln) => (s, SErr (SESyntax full ln))
+                      | PErr (EOther c) => (s, SErr (SEOther c []))
+                      | POk ts0 => parse_tokens f env sk full (f_oracle g) false ts0 s [] []
+                      end in
+                    match r with
+                    | SErr e => (s', SErr e)
+                    | SOk (im, ic) => (s', SOk (INode name im ic))
+                    end
+                end in
+              let '(s1, r) := apply_stmts env sk fname inc stmts' s imports incl in
+              match r with
+              | SErr e => (s1, SErr e)
+              | SOk (imports', incl') => parse_tokens f env sk fname o pending' ts' s1 imports' incl'
+              end
           end
       end
   end.
